@@ -94,7 +94,7 @@ def run(tier, seed):
     thorough = tier == "thorough"
     return pc.run_check(
         "C03", tier, seed,
-        mc_cfgs=["PaySendMC.cfg", "PaySendMC2.cfg"] if not thorough else ["PaySendMCt.cfg", "PaySendMC2t.cfg", "PaySendMC3t.cfg"],
+        mc_cfgs=["PaySendMC.cfg", "PaySendMC2.cfg"] if not thorough else ["PaySendMCt.cfg", "PaySendMC2t.cfg", "PaySendMC3t.cfg", "PaySendMCr2.cfg"],
         compile_fn=lambda s, rng, consts: pc.compile_send_script(s, rng),
         random_fn=lambda rng, consts: pc.random_send_script(rng),
         n_tlc=6000 if thorough else 700, n_rand=12000 if thorough else 800,
